@@ -166,4 +166,4 @@ KNOWN_PREDICATES = {}
 
 # coverage-guided second driver (atheris / libFuzzer through Hypothesis' fuzz_one_input) for the core clauses: (clause, quick runs, thorough runs)
 from harness.covfuzz import cov_clauses  # noqa: E402
-CLAUSES += cov_clauses('C16', CLAUSES, [('automaton', 3000, 60000), ('regexp', 2000, 40000), ('cfg', 2000, 40000)])
+CLAUSES += cov_clauses('C16', CLAUSES, [('automaton', 3000, 20000), ('regexp', 2000, 13333), ('cfg', 2000, 13333)])
